@@ -112,6 +112,7 @@ func NewGen(p *Program, fn *ssa.Function, fc *FuncContract) *Gen {
 		inlined: map[string]bool{}, calleeContracts: map[string]bool{}, obNames: map[string]bool{}, safetyCount: map[string]int{},
 		boxedTags: map[int]bool{}, usedSpecs: map[string]bool{}, pureSeen: map[string]bool{}, fpUndefSigned: map[string]bool{}, siteSeq: map[string]int{}, siteHits: map[string]int{}}
 	g.keySort["$alloc"] = "Int"
+	g.keySort["G|waited"] = "Bool"
 	if fc != nil {
 		g.BV = fc.Arith == "bv"
 	}
